@@ -388,7 +388,7 @@ PROPS["C07"] = {
 
 PROPS["C14"] = {
     "title": "Ray casting against a closed path is ordered and has even parity",
-    "gen_modules": ["Consts", "Basis", "Lines", "CurveLine", "FatLine", "Walk", "Ray"],
+    "gen_modules": ["Consts", "Basis", "Lines", "CurveLine", "FatLine", "Walk", "Normal", "Ray"],
     "corr_n": (2000, 40000),
     "search_n": (1000, 20000),
     "technique": "Lean 4 theorems (side-test soundness, inert filters, balanced-graph parity, per-edge parity over the reals via the intermediate value theorem, "
@@ -467,4 +467,56 @@ PROPS["C03"] = {
     "assumptions": ["t values are not NaN (sort_by on the collisions of an edge is modelled as a stable sort by a total preorder)",
                     "collisions name existing points (by construction in find_collisions)",
                     "theorems about curves are over exact arithmetic"],
+}
+
+PROPS["C20"] = {
+    "title": "Core queries are total on finite input",
+    "gen_modules": ["Consts", "Basis", "Section", "Lines", "FatLine", "CurveLine", "CurveBounds", "Walk", "Fit", "Nearest", "Length", "PointInPath", "Normal", "Total"],
+    "corr_n": (24000, 300000),
+    "search_n": (1000, 100000),
+    "technique": "Lean 4 theorems 'finite in, finite out' about definitions translated from the Rust source on every run, instantiated at XQ (exact rationals with the IEEE-754 rules for "
+                 "signed zeros, x/0, 0/0, inf-inf, 0*inf, sqrt of negatives, unordered NaN comparisons), work-bound theorems for the translated loops + class-exact correspondence of the same "
+                 "instance and of the Float mirror with the real code on degenerate inputs + degenerate catalogue x every core operation on the real code (panic / hang / non-finite)",
+    "level_text": "Partial. PROVED for ALL finite inputs, degenerate ones included (coincident control points, point lines, parameters 0 and 1, empty and reversed sections, zero and negative "
+                  "distances and tolerances): every number returned is finite - every division the code reaches has a non-zero divisor thanks to its guard, and every non-finite intermediate value "
+                  "the code does produce is discarded by a comparison before it reaches the result - for: basis / de_casteljau2-4 / point_at_pos / subdivide / reverse / derivative / coefficients; "
+                  "CurveSection new, t_for_t, subsection, original_curve_t_values, start/end/point_at_pos and control_points (repaired guard t_c >= 1); line_coefficients_2d_unnormalized and "
+                  "line_coefficients_2d (a point line gives exactly (0,0,0)), distance_to, pos_for_point; line_intersects_line / _ray (unguarded division made harmless by the range test), "
+                  "ray_intersects_ray (RAY_DIVISOR guard); FatLine from_curve, from_curve_perpendicular, distance_curve; clip_t and clip (finite for EVERY input, finite or not); polish_root (for every "
+                  "polynomial), solve_roots (relative to the external solver), curve_intersects_ray / _line (for WHATEVER the external root solver returns, NaN included); find_extremities (finite "
+                  "for every input: the quadratic formula divides by 0 for every curve with a linear derivative and the range test filters it), bounding_box4, fast_bounding_box, union_bounds; "
+                  "magnitude, distance_to, chord / control polygon length; walk_curve_evenly (constructor: positive distance and tolerance), EvenWalkIterator::next (for max_error > 0 or "
+                  "distance != 0 - necessary: witness), the repaired vary_by step (keeps that hypothesis at every step, varied distances 0 and negative included), UnevenWalkIterator::next (n = 0 "
+                  "yields nothing); fit_line, newton_raphson_root_find (any curve), the determinant guard of generate_bezier, the worst-point selection of max_error_for_curve (finite error; interior split position "
+                  "1 <= split_pos < len-1 whenever the error is positive - the index used at fit.rs:212 after repair 022a471 - given that the first and last sample errors vanish), nearest_point_on_curve_bezier_root_finder (finite whatever "
+                  "find_bezier_roots returns); to_unit_vector, tangent_at_pos, normal_at_pos; offset_by_moving, offset_by_scaling (when the normals' intersection differs from both end points); "
+                  "curve_hull_length_sq; section_length / curve_length (the whole stack loop translated: finite after any number of iterations, for every tolerance). PROVED NEGATIONS (not total; "
+                  "witness + reproduced on the real code): LineCoefficients::nearest_point of a point line (for ANY two points; known finding); offset_by_scaling when the end normals meet at the "
+                  "start point (known finding); EvenWalkIterator::next with distance = max_error = 0 (unreachable since repair b75d9d0); FatLine::solve_line_y on a vertical hull edge (internal, "
+                  "discarded by clip_t); section_t_for_original_t of an empty section (outside the enumerated operations: informational). WORK BOUNDS PROVED: even_walk_next's controller loop "
+                  "leaves within 32 iterations for every input; section_length empties its stack within 2^(k+1) iterations, k = ceil(log2(max_error/1e-12)), for every curve (the fuel 10^6 of the "
+                  "translation is never exhausted for max_error <= 2.6e-7); the find_bezier_roots skeleton terminates within 2^(MAX_DEPTH+1) iterations. NOT proved, searched on the real code "
+                  "only: panics, stack depth, time; the path boolean operations, point containment, the curve/curve clipping recursion, offset_lms, fit_curve_cubic's least squares, "
+                  "self-intersection (no translated numeric kernel: degenerate catalogue x operation, every call under catch_unwind with a 3 s work bound).",
+    "level_note": "XQ arithmetic is exact: rounding, overflow and underflow are OUT of the theorems' scope (a finite exact result whose binary64 value overflows; a*a+b*b underflowing to 0). Guards that "
+                  "test the computed divisor itself (factor == 0.0, denominator == 0.0, |divisor| > 2e-12, aa != 0.0, |speed| < 1e-8, |det| < 1e-4, magnitude == 0.0) do not depend on exactness; "
+                  "t_c >= 1.0 for the divisor 1.0 - t_c and 'a, b not both 0' for sqrt(a*a+b*b) do. f64::sqrt is any function with sqrt q >= 0 and sqrt q = 0 iff q = 0. The work bounds are honest "
+                  "but not 'proportional to the input size': section_length's only unconditional bound is the MIN_ERROR floor (3e10 iterations for max_error = 0.01; that the flatness test "
+                  "accepts long before is not a theorem), find_bezier_roots' is 2^49, the number of sections of an even walk has no bound at all (termination of the walk is not a theorem). "
+                  "section_t_for_original_t of an empty section (non-finite for every t: proved) is a parameter conversion outside the operations the property enumerates; the catalogue counts it "
+                  "(info.section_t_for_original_t_empty_section_non_finite) and the library's own use (join_subsections) only compares the value. " + COMMON_NOTE,
+    "rule": "corr: curve classes all/three/last-three control points equal, collinear (also horizontal, vertical, overshooting), closed, control points at the ends / coincident, generic; scales 1, 1e-9, "
+            "1e6, 1e-3, 1e3; parameters 0, 1, 1/2, k/16; sections a=b=0, a=b=1, a=b, whole, reversed, proper; lines: point lines, horizontal, vertical, chord, start tangent, generic; distances and "
+            "tolerances 0 and negative. Operations eval (point, tangent, normal, unit vectors, subdivide), sec, line (coefficients, distance, nearest point, pos_for_point), lines (three "
+            "intersection functions), fat (both fat lines, clip_t against a second degenerate curve), bbox, cray (curve/ray with the solver's raw roots from hook H3), walk (even, to the end or "
+            "400 sections), vary (vary_by with a cycle of three distances incl. 0 and negative), uneven (n in 0,1,2,7,49), len (curve_length incl. tolerance <= 0), unit. Every output number: class "
+            "(finite/NaN/+inf/-inf) of the Float mirror = class of the implementation, exact model finite iff implementation finite; values: Float mirror within 1e-9 relative (bit equality "
+            "counted), exact model exactly equal on the dyadic stream for the rounding-free kernels. search: the deterministic catalogue (14 curve entries x 3 (quick) / 7 (thorough) scales, "
+            "8 lines, 13 point sets, 17 paths) x every core operation, outcome finite / non_finite / panic / hang. Non-trivial: a degenerate class; distinct by input.",
+    "trusted_base": ["XQ (Prelude/XQ.lean, XQExt.lean) as the model of binary64 without rounding: tied by the class-exact correspondence run",
+                     "Model/Total.lean: literal hand models of VaryingWalkIterator::next's field updates (tied by the vary correspondence) and of find_bezier_roots' control skeleton (not tied: numeric parts abstract)",
+                     "external solvers (crate roots) and find_bezier_roots are parameters of the finiteness theorems (no contract needed)",
+                     "for the operations without a translated kernel the search catalogue is the only evidence"],
+    "assumptions": ["inputs are finite (no NaN, no infinity); results are finite up to overflow/underflow of binary64, which exact arithmetic does not exhibit",
+                    "EvenWalkIterator::next: max_error > 0 or distance != 0 (established by the constructor and kept by the repaired vary_by: both proved)"],
 }
